@@ -61,6 +61,8 @@ func awkwardSchemas() []string {
 	return out
 }
 
+var c14prefixes = []string{"invoke", "init", "vector", "flags", "true", "bool", "int", "long", "string", "bytes", "double", "null", "error", "type", "get", "set", "is", "new", "obj", "params"}
+
 type c14gen struct {
 	r     *rand.Rand
 	used  map[string]bool
@@ -73,6 +75,11 @@ func (g *c14gen) ident(upper bool) string {
 		w := c14words[g.r.Intn(len(c14words))]
 		if g.r.Intn(2) == 0 {
 			w += strings.Title(c14words[g.r.Intn(len(c14words))])
+		}
+		if g.r.Intn(8) == 0 {
+			// names that begin like something the tool treats specially (the generic invoke*/init* wrappers, built-in
+			// type names, the flags word) but are ordinary definitions
+			w = c14prefixes[g.r.Intn(len(c14prefixes))] + strings.Title(w)
 		}
 		g.n++
 		if g.r.Intn(3) == 0 {
@@ -575,6 +582,14 @@ func c14generate(c *wk.Ctx, idx int, cs c14case, tlgen, work string, runs int) b
 			out = filepath.Join(work, cs.tag, "telegram")
 		}
 		os.MkdirAll(out, 0o755)
+		if run == runs-1 && run > 0 {
+			// the last run writes into a directory that already holds what the tool generated a moment ago from ANOTHER
+			// schema (the usual state of a checkout): what is there afterwards must be this schema's output
+			prev := filepath.Join(work, cs.tag+".prev.tl")
+			os.WriteFile(prev, []byte(c14prevSchema), 0o644)
+			exec.Command(tlgen, prev, out).Run()
+			c.Count("tlgen.runs_into_used_directory", 1)
+		}
 		cmd := exec.Command(tlgen, src, out)
 		var stderr bytes.Buffer
 		cmd.Stderr = &stderr
@@ -622,6 +637,14 @@ func c14generate(c *wk.Ctx, idx int, cs c14case, tlgen, work string, runs int) b
 	c.Count("tlgen.schemas_deterministic", 1)
 	return true
 }
+
+// c14prevSchema: what the output directory of the last run was generated from before.
+const c14prevSchema = `earlierThing#11223344 count:int = EarlierThing;
+earlierOne#22334455 = EarlierEnum;
+earlierTwo#33445566 = EarlierEnum;
+---functions---
+earlierCall#44556677 id:long = EarlierThing;
+`
 
 const c14stub = `package telegram
 
